@@ -19,6 +19,7 @@ func init() {
 			"R10.3 who may write ScrapeTimes: only the reset to 0 (C05 R5.4) and the +1 in the proxy's completion (C13 R13.2); " +
 			"R10.4 who may write IdleAt: a non-nil value only under len(Status)==0 ∧ IdleAt==nil, nil only under len(Status)!=0, the idle update runs after the status rebuild in UpdateTargets, and the runtime-info endpoint reports IdleAt unchanged in an object built by the reporting call itself (no cached report). " +
 			"R10.5 who may write ScrapeStatus.Series/TotalSeries: only the constructor and the scrape-result update of pkg/target (a kept entry keeps its measurements). " +
+			"R10.1 also: the handler hands the decoded request to the manager unchanged (no job removed or replaced before it is applied). " +
 			"Not decided: values over update sequences (a reference-model comparison is a dynamic technique).",
 		Assumptions: []string{"go/types and go/ssa are correct"}})
 }
@@ -289,6 +290,79 @@ func runC10(p *engine.Prog, r *engine.Report) {
 		}
 	}
 	r.Check(okW && len(writers) == 2, "R10.3-scrape-counter-writers", "writers of ScrapeStatus.ScrapeTimes", "program-wide who-may-write table", "exactly: the reset to 0 in the status rebuild and the +1 in the proxy completion", strings.Join(writers, "; "))
+
+	// ---- R10.1 (request): what the update handler hands to the manager is the request as it was posted: an update that is
+	// answered with success tracks every target it names
+	{
+		fReqTargets := p.Field(pkgShard, "UpdateTargetsRequest", "Targets")
+		n := 0
+		for _, fn := range p.Funcs {
+			if !engine.InPkg(fn, pkgSide) {
+				continue
+			}
+			for _, ci := range callsIn(fn, mUpdate) {
+				call, ok := ci.(*ssa.Call)
+				if !ok || len(call.Call.Args) < 2 {
+					continue
+				}
+				key := func(v ssa.Value) ssa.Value {
+					// the request variable may live in a cell (its address is given to the decoder): all loads of the cell are it
+					if u, ok := v.(*ssa.UnOp); ok {
+						if al, ok := u.X.(*ssa.Alloc); ok {
+							return al
+						}
+					}
+					return v
+				}
+				req := key(call.Call.Args[1])
+				if _, isParam := req.(*ssa.Parameter); isParam {
+					continue // forwarded by a wrapper: its caller is checked
+				}
+				// a request decoded from the wire: the same value is handed to a decoder before
+				decoded := false
+				for _, in := range allInstrs(fn) {
+					if c2, ok := in.(ssa.CallInstruction); ok && in != ssa.Instruction(call) {
+						for _, a := range c2.Common().Args {
+							if key(a) == req || key(unwrapIface(a)) == req || unwrapIface(a) == req {
+								decoded = true
+							}
+						}
+					}
+				}
+				if !decoded {
+					continue
+				}
+				n++
+				isReqTargets := func(addr ssa.Value) bool {
+					fa, ok := addr.(*ssa.FieldAddr)
+					return ok && engine.FieldOf(fa) == fReqTargets && key(fa.X) == req
+				}
+				var probs []string
+				for _, in := range allInstrs(fn) {
+					switch x := in.(type) {
+					case *ssa.MapUpdate:
+						if u, ok := x.Map.(*ssa.UnOp); ok && isReqTargets(u.X) {
+							probs = append(probs, "the posted assignment is edited at "+p.Rel(x.Pos())+" before it is applied")
+						}
+					case *ssa.Call:
+						if bi, ok := x.Call.Value.(*ssa.Builtin); ok && bi.Name() == "delete" {
+							if u, ok := x.Call.Args[0].(*ssa.UnOp); ok && isReqTargets(u.X) {
+								probs = append(probs, "jobs are deleted from the posted assignment at "+p.Rel(x.Pos())+" before it is applied (the update is still answered with success)")
+							}
+						}
+					case *ssa.Store:
+						if isReqTargets(x.Addr) {
+							probs = append(probs, "the posted assignment is replaced at "+p.Rel(x.Pos())+" before it is applied")
+						}
+					}
+				}
+				r.Check(len(probs) == 0, "R10.1-status-rebuild", "request handed over in "+engine.FuncName(fn), "UpdateTargets call at "+p.Rel(call.Pos()), "the request as posted (decoded and passed on unchanged)", strings.Join(probs, "; "))
+			}
+		}
+		if n == 0 {
+			r.Add("R10.1-status-rebuild", "request handed over", pkgSide, "a handler that decodes a request and calls TargetsManager.UpdateTargets", "none found", engine.Undecided)
+		}
+	}
 
 	// ---- R10.5 who may write the measured statistics of a status entry
 	checkStatisticsWriters(p, r, "R10.5-statistics-writers")
